@@ -108,12 +108,13 @@ type Unit struct {
 	epoch    int
 	hyps     []hyp
 	idxTerms []idxAt
+	repoCallees map[string]bool // contracts of /repo functions and interfaces assumed at call sites
 }
 
 func newUnit(p *Program, name string) *Unit {
 	return &Unit{P: p, Name: name, sorts: newSorts(), compSort: map[string]string{}, entry: map[string]Term{},
 		trusted: map[string]bool{}, unspec: map[string]bool{}, declared: map[string]bool{}, subFacts: map[string]bool{},
-		implDone: map[string]bool{}, ordinals: map[string]int{}, eventArgSorts: map[string][]string{}}
+		implDone: map[string]bool{}, ordinals: map[string]int{}, eventArgSorts: map[string][]string{}, repoCallees: map[string]bool{}}
 }
 
 func (u *Unit) emit(cmd string) { u.cmds = append(u.cmds, cmd) }
@@ -195,6 +196,9 @@ func (u *Unit) compSortOf(name string) string {
 		s = "(Array Ref (Array Str Bool))"
 	case strings.HasPrefix(name, "MV_"):
 		s = "(Array Ref (Array Str " + name[3:] + "))"
+	case strings.HasPrefix(name, "GM_"):
+		g := u.P.CS.GhostMaps[name[3:]]
+		s = "(Array " + g.Struct + " " + g.Sort + ")"
 	case strings.HasPrefix(name, "held"):
 		s = "(Array Ref Int)"
 	default:
@@ -601,3 +605,5 @@ func SafeName(s string) string {
 func isGhostTrace(name string) bool {
 	return name == "clock" || strings.HasPrefix(name, "cnt_") || strings.HasPrefix(name, "arg_") || strings.HasPrefix(name, "at_")
 }
+
+func (u *Unit) RepoCallees() []string { return sortedKeys(u.repoCallees) }
